@@ -3,7 +3,7 @@
     one inference run over a persistent pool through the PoolLoader and the executor of Graph/Net.v).
     Proofs: Proofs/C05_Pool.v, Proofs/C05_Cache.v, Proofs/C05_History.v (with C03's executor and C02's cache theorems). *)
 From Coq Require Import List String ZArith Arith Bool.
-From Elfi Require Import Graph.Net Store.Layout Store.Pool Proofs.C03_Exec Proofs.C02_Order Proofs.C05_Pool Proofs.C05_Cache Proofs.C05_History Proofs.C05_Layout.
+From Elfi Require Import Graph.Net Store.Layout Store.Pool Proofs.C03_Exec Proofs.C02_Order Proofs.C05_Pool Proofs.C05_Cache Proofs.C05_History Proofs.C05_Layout Proofs.C03_EndToEnd Proofs.C03_Twins Graph.Denote Proofs.C05_Compose.
 Import ListNotations.
 
 (** If the values supplied for some nodes are the values a fresh computation gives them, then every
@@ -66,6 +66,37 @@ Theorem C05_context_refusal :
                   ((exists b, bs = Some b /\ b <> pb) \/ (exists s, seed = Some s /\ s <> ps)).
 Proof. exact make_context_refuses. Qed.
 Print Assumptions C05_context_refusal.
+
+(** End to end at the level of the user's model (with C03's composition theorem): with a pool whose
+    entries equal the pool-free meaning of their nodes, whatever [generate] returns - for every
+    well-formed graph, observed twins included, every stored set and every requested output - is
+    the pool-free meaning of the requested node; a run with the pool and the pool-free run return
+    the same values. *)
+Theorem C05_generate_with_pool_is_pool_free :
+  forall src outs P out log,
+    wfsrc src -> NoDup (map fst P) -> (forall k, In k (map fst P) -> ~ In k inames) ->
+    pool_consistent src P ->
+    generate src outs P = Ok (out, log) ->
+    forall o v, In (o, v) out ->
+      (has o (s_nodes src) = true
+       \/ exists x st, lookup x (s_nodes src) = Some st /\ o = observed_name x
+                       /\ (s_observable st = true \/ s_uses_observed st = true)) ->
+      forall v0, den_name src [] o = Some v0 -> v = v0.
+Proof. exact generate_with_pool_is_pool_free. Qed.
+Print Assumptions C05_generate_with_pool_is_pool_free.
+
+Theorem C05_generate_with_pool_equals_fresh :
+  forall src outs P out log out0 log0,
+    wfsrc src -> NoDup (map fst P) -> (forall k, In k (map fst P) -> ~ In k inames) ->
+    pool_consistent src P ->
+    generate src outs P = Ok (out, log) -> generate src outs [] = Ok (out0, log0) ->
+    forall o v v0, In (o, v) out -> In (o, v0) out0 ->
+      (has o (s_nodes src) = true
+       \/ exists x st, lookup x (s_nodes src) = Some st /\ o = observed_name x
+                       /\ (s_observable st = true \/ s_uses_observed st = true)) ->
+      v = v0.
+Proof. exact generate_with_pool_equals_fresh. Qed.
+Print Assumptions C05_generate_with_pool_equals_fresh.
 
 (** Along a whole inference run over a pool - any batch indices, the pool filling up and the shared
     output set growing as the PoolLoader adds the stored nodes the pool lacks - every batch returns
@@ -229,6 +260,23 @@ Example C05_layout_example :
                  so_read := [[1; 2; 3; 4; 5; 6]; [11; 12; 13; 14; 15; 16]; [21; 22; 23; 24; 25; 26]]%Z |} = true
   (* the column-major bytes of the Fortran batch are NOT what must be stored *)
   /\ store_ok {| so_batches := [f]; so_file := None; so_read := [[11; 14; 12; 15; 13; 16]]%Z |} = false.
+Proof. vm_compute. repeat split. Qed.
+
+(** Non-vacuity of the end-to-end reuse theorems: on the MA2-like model, the pool holding the
+    pool-free meanings of the simulator and the summary is consistent, the model is well formed, and
+    generate succeeds with it (running only the discrepancy and the observed side). *)
+Example C05_end_to_end_example :
+  match den_name c5_src [] "y"%string, den_name c5_src [] "s"%string with
+  | Some vy, Some vs =>
+      let P := [("y"%string, vy); ("s"%string, vs)] in
+      wfsrc_b c5_src = true /\ pool_consistent_b c5_src P = true
+      /\ match generate c5_src ["d"%string] P, generate c5_src ["d"%string] [] with
+         | Ok (out, log), Ok (out0, log0) => out = out0 /\ log = ["_s_observed"; "_d_observed"; "d"]%string
+                                             /\ List.length log0 = 6%nat
+         | _, _ => False
+         end
+  | _, _ => False
+  end.
 Proof. vm_compute. repeat split. Qed.
 
 (** Non-vacuity: the MA2-like store sets ("the simulator and/or what is computed from it", with the
